@@ -142,12 +142,14 @@ VertexManifold(F) == \A v \in Referenced(F) : LinkConnected(F, v)
 \* six times the signed volume: sum over faces of det(a - R, b - R, c - R).  It does not depend on
 \* the reference point R for a closed surface; two reference points are compared so that a face
 \* whose plane passes through one of them still counts.
-RECURSIVE SumDet(_, _, _, _, _)
-SumDet(V, F, B, R, k) ==
-    IF k = 0 THEN 0
-    ELSE (IF k \in B THEN LET t == Tri(V, F[k]) IN Det3(Sub(t[1], R), Sub(t[2], R), Sub(t[3], R)) ELSE 0)
-         + SumDet(V, F, B, R, k - 1)
-Vol6On(V, F, B, R) == SumDet(V, F, B, R, Len(F))
+\* (summed by halving the index range: the recursion depth stays logarithmic for thousands of faces)
+RECURSIVE SumDet(_, _, _, _, _, _)
+SumDet(V, F, B, R, lo, hi) ==
+    IF lo > hi THEN 0
+    ELSE IF lo = hi THEN
+        (IF lo \in B THEN LET t == Tri(V, F[lo]) IN Det3(Sub(t[1], R), Sub(t[2], R), Sub(t[3], R)) ELSE 0)
+    ELSE LET mid == (lo + hi) \div 2 IN SumDet(V, F, B, R, lo, mid) + SumDet(V, F, B, R, mid + 1, hi)
+Vol6On(V, F, B, R) == SumDet(V, F, B, R, 1, Len(F))
 Vol6(V, F, R) == Vol6On(V, F, 1..Len(F), R)
 Ref2 == <<1, -2, 3>>
 VolPair(V, F) == <<Vol6(V, F, Zero3), Vol6(V, F, Ref2)>>
@@ -225,10 +227,11 @@ Halvings(x, y) == IF x <= y THEN 0 ELSE 1 + Halvings(x, 4 * y)
 NeededFace(t, nn, dd) == Halvings(MaxSq(t) * dd * dd, nn * nn)
 Needed(V, F, nn, dd) == LET per == {NeededFace(Tri(V, F[k]), nn, dd) : k \in 1..Len(F)}
                         IN CHOOSE m \in per : \A x \in per : x <= m
-RECURSIVE SumCross(_, _, _, _, _)
-SumCross(V, F, idx, f, k) ==
-    IF k = 0 THEN Zero3
-    ELSE Add(IF idx[k] = f THEN FaceCross(Tri(V, F[k])) ELSE Zero3, SumCross(V, F, idx, f, k - 1))
+RECURSIVE SumCross(_, _, _, _, _, _)
+SumCross(V, F, idx, f, lo, hi) ==
+    IF lo > hi THEN Zero3
+    ELSE IF lo = hi THEN (IF idx[lo] = f THEN FaceCross(Tri(V, F[lo])) ELSE Zero3)
+    ELSE LET mid == (lo + hi) \div 2 IN Add(SumCross(V, F, idx, f, lo, mid), SumCross(V, F, idx, f, mid + 1, hi))
 \* p in the closed triangle t (normal n = FaceCross(t)): in its plane and on the inner side of every edge
 InFace(p, t, n) ==
     /\ Dot(Sub(p, t[1]), n) = 0
@@ -258,7 +261,7 @@ ToSizeClause(c) ==
     ELSE IF \E k \in 1..Len(F1) :
               Dot(FaceCross(Tri(V1, F1[k])), FaceCross(Tri(V0, F0[c.idx[k] + 1]))) <= 0
          THEN "to_size_piece_wound_against_its_original"
-    ELSE IF \E f \in 1..Len(F0) : SumCross(V1, F1, c.idx, f - 1, Len(F1)) # FaceCross(Tri(V0, F0[f]))
+    ELSE IF \E f \in 1..Len(F0) : SumCross(V1, F1, c.idx, f - 1, 1, Len(F1)) # FaceCross(Tri(V0, F0[f]))
          THEN "to_size_pieces_do_not_add_up_to_original_face"
     ELSE "ok"
 
